@@ -199,6 +199,27 @@ func c17(p *core.Program, r *core.Report) {
 		r.Check(bad == "", r3, strings.TrimPrefix(pkg.PkgPath, mod+"/"), "", false, "no go statement; no unsafe/sync import", bad)
 	}
 
+	// ---- (2b) results are not package memory
+	const r2b = "results-not-package-memory"
+	r.Rule(r2b, "MODREF: no result of an exported function or method of the library packages points at (or into) writable memory reachable from a package-level variable of the module - a slice backing array, a map, or a struct reachable from a package variable: two calls would hand out the same storage, so a caller appending to or writing one result changes what another caller holds (geojson.Marshal(nil) returned the package's own \"null\" slice). Immutable singletons are not storage: values of error types and of func type are not counted", 150)
+	nres := 0
+	for _, e := range m.Entries {
+		if e.Signature.Results().Len() == 0 {
+			continue
+		}
+		nres++
+		key := core.FuncName(e)
+		var bad []string
+		for _, l := range m.ResultGlobals(e) {
+			if immutableSingleton(l.O) {
+				continue
+			}
+			bad = append(bad, l.String())
+		}
+		r.Check(len(bad) == 0, r2b, key, p.Pos(e.Pos()), true, "no result reaches package-level storage", fmt.Sprintf("a result of %s may point at package-level storage %s: every call hands out the same memory, so one caller's write or append is seen by every other caller", key, strings.Join(bad, ", ")))
+	}
+	r.Count("entries_with_results", nres)
+
 	// ---- (4) no state kept in the variables of a function literal that outlives its creator
 	const r4 = "closure-state-immutable"
 	r.Rule(r4, "a function literal of a library package that outlives the call creating it (it is returned, stored, or boxed in an interface: the option constructors) only reads the variables it captured: it does not assign to them and does not hand out their address - a captured variable written by such a literal is state shared by every later use of the returned value, from any goroutine (a formatting buffer kept `between calls`)", 1)
@@ -684,4 +705,34 @@ func nilEdgeOfField(b *ssa.BasicBlock, i int, t types.Type, f int) bool {
 		return false
 	}
 	return (bo.Op == token.EQL && i == 0) || (bo.Op == token.NEQ && i == 1)
+}
+
+// immutableSingleton: package-level memory a caller cannot use as storage - the payload of an error value (its
+// type implements error; the sentinel errors are compared by identity and their types export no field a caller
+// could write through the error interface), a function, or a string's bytes.
+func immutableSingleton(o *eng.Obj) bool {
+	if o.Kind == eng.ObjFunc {
+		return true
+	}
+	t := o.Type
+	if t == nil && o.Site != nil {
+		t = o.Site.Type()
+		if pt, ok := t.Underlying().(*types.Pointer); ok {
+			t = pt.Elem()
+		}
+	}
+	if t == nil {
+		return false
+	}
+	errT := types.Universe.Lookup("error").Type().Underlying().(*types.Interface)
+	if types.Implements(t, errT) || types.Implements(types.NewPointer(t), errT) {
+		return true
+	}
+	switch u := t.Underlying().(type) {
+	case *types.Signature:
+		return true
+	case *types.Basic:
+		return u.Info()&types.IsString != 0
+	}
+	return false
 }
